@@ -155,15 +155,15 @@ def run(ctx, f, rep):
         c = pathq.mentions_call(e, lambda y: short(y[1]) == "captures")
         if c is None:
             return None
-        for x in walk_expr(c):
+        # the pattern is the receiver of `captures`; its text argument may itself come out of another pattern's match
+        recv = c[2][0] if c[2] else c
+        for x in walk_expr(recv):
             if isinstance(x, tuple) and x and x[0] == "const":
                 for name in regs:
                     if name in x[1]:
                         return name
-            if isinstance(x, tuple) and x and x[0] in ("call", "pure") and short(x[1]) in ("deref", "force"):
-                pass
-        # Lazy statics are read through `&STATIC`: look for the static's name anywhere in the text
-        txt = show(c)
+        # Lazy statics are read through `&STATIC`: look for the static's name anywhere in the receiver's text
+        txt = show(recv)
         for name in regs:
             if name in txt:
                 return name
@@ -285,7 +285,19 @@ def run(ctx, f, rep):
                     return g[1], regex_of(x)
         return None, None
     hp_name = next((n_ for n_, v in regs.items() if "://" not in (v[0] or "")), None)
-    hpf = [b for b in [f.body(p_) for p_ in sorted(R)] if b is not None and any(fn and parse_target_fn(fn) == "u16" for bb, t, fn in b.calls())]
+    # ... or a private helper of it that is looked through: then the rule is evaluated in the function that calls the helper,
+    # where the argument of the parse is known
+    inl = pathq.default_inline(f)
+    looked_through = set()
+    for b in [f.body(p_) for p_ in sorted(R)]:
+        if b is None:
+            continue
+        for bb, t, fn in b.calls():
+            if fn and inl(fn):
+                r_ = fn.get("resolved") or {}
+                looked_through.add(r_.get("path") if r_.get("kind") == "item" else fn["path"])
+    hpf = [b for b in [f.body(p_) for p_ in sorted(R)] if b is not None and b.path not in looked_through and
+           any(fn and parse_target_fn(fn) == "u16" for sb in pathq.scope(f, b) for bb, t, fn in sb.calls())]
     rep.floor("R19.2", "functions on the endpoint surface that parse a u16 port", len(hpf), 1)
     for b in hpf:
         nport = nhost = 0
